@@ -22,8 +22,11 @@
    password_auth_requested = a password, password_change_requested = NotImplemented,
    client preferred_auth = [password], no rekey thresholds, no timers, no compression, no GSS, no EXT_INFO sent.
 
-   [fixed] selects the proposed repair of finding C06/9 (USERAUTH_SUCCESS accepted only while a request of
-   the current auth object has been issued); fixed = false is the code as it is. *)
+   Two switches select proposed repairs; both false is the code as it is:
+   [fixed]  USERAUTH_SUCCESS is accepted only while a request of the current auth object has been issued
+            (finding C06/9);
+   [fixk]   a KEXINIT is refused while the peer's NEWKEYS is still awaited (finding: second exchange started
+            between our NEWKEYS and the peer's when strict KEX is not negotiated). *)
 From AV Require Import Base.Prelude.
 
 Inductive task :=
@@ -163,8 +166,8 @@ Definition send_newkeys (c : conn) : conn :=
 
 (* ---- transport handlers --------------------------------------------------------------------------- *)
 (* KEXINIT.  cls: 0 = peer does not offer strict KEX, 1 = peer's strict marker present *)
-Definition on_kexinit (c : conn) (seq cls : Z) : conn :=
-  if kex c then fatal c
+Definition on_kexinit (fixk : bool) (c : conn) (seq cls : Z) : conn :=
+  if kex c || (fixk && next_recv c) then fatal c
   else
     let c1 := if negb (sid c) && (cls =? 1) then set_strict true c else c in
     if strict c1 && negb (recv_enc c1) && negb (seq =? 0) then fatal c1
@@ -267,13 +270,13 @@ Definition on_authmsg (c : conn) (seq t : Z) : conn :=
 Definition is_deleg (t : Z) : bool :=
   (t =? 80) || (t =? 81) || (t =? 82) || (t =? 90) || (t =? 91) || (t =? 92) || ((93 <=? t) && (t <=? 127)).
 
-Definition on_connmsg (fixed : bool) (c : conn) (seq t cls : Z) : conn :=
+Definition on_connmsg (fixed fixk : bool) (c : conn) (seq t cls : Z) : conn :=
   if t =? 1 then abort c
   else if (t =? 2) || (t =? 3) || (t =? 4) then c
   else if t =? 5 then on_service_request c cls
   else if t =? 6 then on_service_accept c cls
   else if t =? 7 then on_ext_info c
-  else if t =? 20 then on_kexinit c seq cls
+  else if t =? 20 then on_kexinit fixk c seq cls
   else if t =? 21 then on_newkeys c cls
   else if t =? 50 then on_userauth_request c cls
   else if t =? 51 then on_userauth_failure c cls
@@ -281,14 +284,14 @@ Definition on_connmsg (fixed : bool) (c : conn) (seq t cls : Z) : conn :=
   else if t =? 53 then on_banner c
   else unimpl c seq.
 
-Definition dispatch (fixed : bool) (c : conn) (seq t cls : Z) : conn :=
+Definition dispatch (fixed fixk : bool) (c : conn) (seq t cls : Z) : conn :=
   if (30 <=? t) && (t <=? 49) then (if kex c then on_kexmsg c seq t cls else fatal c)
   else if strict c && negb (recv_enc c) && (2 <=? t) && (t <=? 4) then fatal c
   else if (60 <=? t) && (t <=? 79) then (if negb (auth c =? 0) then on_authmsg c seq t else fatal c)
   else if (49 <? t) && negb (recv_enc c) then fatal c
   else if (79 <? t) && negb (auth_complete c) then fatal c
   else if is_deleg t then set_deleg true c
-  else on_connmsg fixed c seq t cls.
+  else on_connmsg fixed fixk c seq t cls.
 
 Definition with_conn (s : st) (c : conn) : st :=
   mkst c (recv_seq s) (send_seq s) (last_recv s) (last_sent s) (clear_acc s).
@@ -311,10 +314,10 @@ Fixpoint note_all (s : st) (l : list Z) : st :=
   end.
 
 (* one received packet *)
-Definition recv (fixed : bool) (s : st) (t cls : Z) : st :=
+Definition recv (fixed fixk : bool) (s : st) (t cls : Z) : st :=
   if closed (cn s) then s
   else
-    let c1 := dispatch fixed (cn s) (recv_seq s) t cls in
+    let c1 := dispatch fixed fixk (cn s) (recv_seq s) t cls in
     if closed c1 then with_conn s c1 else finish_recv s c1 t.
 
 (* ---- tasks ------------------------------------------------------------------------------------------------ *)
@@ -349,11 +352,11 @@ Inductive event :=
 | EvSettle.                      (* the event loop runs every ready task *)
 
 (* one event *)
-Definition step (fixed : bool) (s : st) (e : event) : st :=
+Definition step (fixed fixk : bool) (s : st) (e : event) : st :=
   match e with
   | EvVersion =>
       if closed (cn s) then s else with_conn s (set_kexinit_sent true (send_kexinit (cn s)))
-  | EvRecv t cls => recv fixed s t cls
+  | EvRecv t cls => recv fixed fixk s t cls
   | EvSettle => with_conn s (run_tasks TASK_FUEL (cn s))
   end.
 
@@ -362,10 +365,10 @@ Definition begin_step (s : st) : st := with_conn s (set_deleg false (set_olog []
 
 (* a run with the send-side bookkeeping applied to exactly the packets the model itself emits
    (the correspondence checker instead books every packet the real endpoint was seen to send) *)
-Definition step_booked (fixed : bool) (s : st) (e : event) : st :=
-  let s1 := step fixed (begin_step s) e in note_all s1 (map fst (olog (cn s1))).
+Definition step_booked (fixed fixk : bool) (s : st) (e : event) : st :=
+  let s1 := step fixed fixk (begin_step s) e in note_all s1 (map fst (olog (cn s1))).
 
-Definition run (fixed : bool) (s : st) (l : list event) : st := fold_left (step_booked fixed) l s.
+Definition run (fixed fixk : bool) (s : st) (l : list event) : st := fold_left (step_booked fixed fixk) l s.
 
 (* ---- the verdict vocabulary of the generated table ------------------------------------------------------ *)
 Inductive verdict := VH | VU | VF | VI | VL | VX.
